@@ -840,7 +840,8 @@ def seg_dense_jobs(ctx, inject=0, flags=(), tag=""):
     """long bucket lists (up to 70 copies, capacity coincidences, e == t), a root list of whole-domain values,
     fault enumeration inside a long list, a bulk run of 2 500 values in one list"""
     doms = DENSE_DOMAINS[:2] if ctx.quick() else DENSE_DOMAINS
-    return [ctx.submit(f"dense{tag}-{coll}-d{di}", coll, "dense", {"lo": lo, "hi": hi, "seed": ctx.seed + di, "inject": inject, "bulk": 2500}, flags=flags)
+    # (the first domain gets a list of 70 000 copies - more than a 16-bit cursor can address - whose yields are logged in summary)
+    return [ctx.submit(f"dense{tag}-{coll}-d{di}", coll, "dense", {"lo": lo, "hi": hi, "seed": ctx.seed + di, "inject": inject, "bulk": 70000 if di == 0 else 2500}, flags=flags)
             for di, (coll, lo, hi) in enumerate(doms)]
 
 
